@@ -52,3 +52,18 @@ Lemma crc_sites_accept_undamaged g : In g CrcSite_guards ->
 Proof.
   intros Hin h v sf body. rewrite (crc_sites_decide_like_model g Hin). apply page_undamaged_ok.
 Qed.
+
+(** Writer side, two cooperating sites of src/writer/page_writer.c (Gen/CrcSites_gen.v): the page header stores a crc
+    field only when the checksum of the body has been computed - whatever the size of the page (a page without value
+    bytes, e.g. all nulls, still has a body).  Otherwise the field would hold the initial 0 and an undamaged file would
+    report a checksum error. *)
+Lemma crc_writer_stores_only_computed : forall (write_crc : bool) (size : Z),
+  CrcWriter_stores write_crc size = true -> CrcWriter_computes write_crc size = true.
+Proof.
+  intros [|] size H; unfold CrcWriter_stores, CrcWriter_computes in *; cbn in *;
+    first [exact H | reflexivity | discriminate H].
+Qed.
+
+(** non-vacuity: with checksums enabled (the default of the writer) the field is stored *)
+Lemma crc_writer_stores_by_default : forall size, CrcWriter_stores true size = true.
+Proof. intros size. reflexivity. Qed.
